@@ -90,7 +90,9 @@ MEMOS = ["", "", "plain", " lead", "trail ", "a,b", 'say "hi"', "line1\nline2", 
          "\u00a0nbsp\u00a0", "\u2003em", "tab\t", "!", ",", '"', "\n", "  ", "x\u3000", "Summary", "2021 gain summary (sell)",
          '""', "a\rb", " \u00e9 ", "\u200b zwsp", "\u2028ls", "ogham\u1680", "\u0085nel",
          # cells a lenient reader could take for "no value" or for something else
-         "-", " - ", "--", "n/a", "None", "null", "0", "#", "# c", "=1+1", "'", "-5 correction"]
+         "-", " - ", "--", "n/a", "None", "null", "0", "#", "# c", "=1+1", "'", "-5 correction",
+         # backslashes, alone and in cells that need quoting
+         "C:\\accts\\rrsp", "moved from C:\\accts\\rrsp, see note", "trailing backslash, \\", '\\"x\\"', "\\", 'a\\"b, c']
 
 
 def gen_car(rng, stats):
